@@ -794,6 +794,150 @@ def sort_histories(rng, quick):
     return hs
 
 
+# ---- nested instantiation Map<K, List<T>> / HashMap<K, List<T>> on the real headers (harness/life_nested.cpp; no Lean model) ----------
+class NestRef:
+    """reference of the nested harness: per variable an association list key -> inner list of [payload, born]; N sorted by key,
+    G in insertion order.  `m.insert(key, *m.find(key))` must change NOTHING (no inner element is constructed, none moves);
+    assignment from another list replaces the inner elements by new ones."""
+
+    def __init__(self):
+        self.v = {"N": [[], []], "G": [[], []]}
+        self.now = 0
+
+    def find(self, x, key):
+        for e in x:
+            if e[0] == key:
+                return e
+        return None
+
+    def put(self, k, x, key, inner):
+        e = self.find(x, key)
+        if e is not None:
+            e[1] = inner
+            return
+        if k == "N":
+            x.insert(sum(1 for e in x if e[0] < key), [key, inner])
+        else:
+            x.append([key, inner])
+
+    def show(self, x):
+        return " ".join(f"{e[0]}:[" + " ".join(f"{p}{'n' if b == self.now else 's'}" for p, b in e[1]) + "]" for e in x) or "-"
+
+    def apply(self, line):
+        self.now += 1
+        t = line.split()
+        if t[0] == "destroyall":
+            self.v = {"N": [[], []], "G": [[], []]}
+            return "end # u=0 dd=0 ov=0 live=0"
+        m = re.fullmatch(r"([NG])\.(\w+)", t[0])
+        if not m:
+            return "bad-op"
+        k, op = m.group(1), m.group(2)
+        try:
+            a = [int(z) for z in t[1:]]
+        except ValueError:
+            return "bad-op"
+        if not a or a[0] > 1:
+            return "bad-op"
+        x = self.v[k][a[0]]
+        n = len(a)
+        if op == "push" and n == 3:
+            e = self.find(x, a[1])
+            if e is None:
+                self.put(k, x, a[1], [])
+                e = self.find(x, a[1])
+            e[1].append([a[2], self.now])
+        elif (op == "insertself" and n == 2) or (op == "insertplain" and n == 2 and k == "N"):
+            if self.find(x, a[1]) is None:
+                return "bad-op"                       # present: the value is assigned to itself - nothing may change
+        elif op == "insertfrom" and n == 3:
+            src = self.find(x, a[2])
+            if src is None:
+                return "bad-op"
+            if a[1] != a[2]:
+                self.put(k, x, a[1], [[p, self.now] for p, _ in src[1]])
+        elif op == "pop" and n == 2:
+            e = self.find(x, a[1])
+            if e is None or not e[1]:
+                return "bad-op"
+            del e[1][0]
+        elif op == "remove" and n == 2:
+            x[:] = [e for e in x if e[0] != a[1]]
+        elif op == "clear" and n == 1:
+            x[:] = []
+        elif op == "assign" and n == 2:
+            if a[1] > 1:
+                return "bad-op"
+            if a[1] != a[0]:
+                self.v[k][a[0]] = [[e[0], [[p, self.now] for p, _ in e[1]]] for e in self.v[k][a[1]]]
+        else:
+            return "bad-op"
+        return f"{k} {self.show(self.v[k][0])} | {self.show(self.v[k][1])} # u=0 dd=0 ov=0"
+
+
+NEST_SMALL = {k: [f"{k}.push 0 1 10", f"{k}.push 0 1 11", f"{k}.push 0 2 20", f"{k}.insertself 0 1", f"{k}.insertself 0 2", f"{k}.insertfrom 0 2 1",
+                  f"{k}.insertfrom 0 3 1", f"{k}.insertfrom 0 1 1", f"{k}.pop 0 1", f"{k}.remove 0 1", f"{k}.clear 0", f"{k}.assign 0 0", f"{k}.assign 1 0",
+                  f"{k}.assign 0 1"] + ([f"{k}.insertplain 0 1"] if k == "N" else []) for k in "NG"}
+
+
+def nested_histories(rng, quick):
+    hs = []
+    for k in "NG":
+        for n in (1, 2, 3):
+            hs += [list(p) + ["destroyall"] for p in itertools.product(NEST_SMALL[k], repeat=n)]
+    for _ in range(400 if quick else 8000):
+        k = rng.choice("NG")
+        h = []
+        for _ in range(rng.choice([6, 12, 25])):
+            v, key, key2 = rng.randrange(2), rng.randrange(4), rng.randrange(4)
+            h.append(rng.choice([f"{k}.push {v} {key} {rng.randrange(100)}"] * 4 + [f"{k}.insertself {v} {key}"] * 3 + [f"{k}.insertfrom {v} {key} {key2}"] * 2 +
+                                ([f"N.insertplain {v} {key}"] * 2 if k == "N" else []) +
+                                [f"{k}.pop {v} {key}", f"{k}.remove {v} {key}", f"{k}.assign {v} {rng.randrange(2)}", f"{k}.clear {v}"]))
+        hs.append(h + ["destroyall"])
+    return hs
+
+
+def nested_run(exe, hs):
+    """[(history, index of first bad line, impl line, ref line, stderr)] for the histories on which implementation and reference differ"""
+    bad = []
+    for i in range(0, len(hs), 400):
+        chunk = hs[i:i + 400]
+        lines, _ = C.flatten(chunk)
+        out, rc, err = C.run_lines(exe, lines, timeout=150)
+        for h, io in zip(chunk, C.split_outputs(out, chunk)):
+            r = NestRef()
+            ro = [r.apply(l) for l in h]
+            if io != ro:
+                j = next((j for j in range(len(ro)) if j >= len(io) or io[j] != ro[j]), len(ro))
+                bad.append((h, j, io[j] if j < len(io) else "<no output: crash/timeout>", ro[j] if j < len(ro) else "", err if j >= len(io) else ""))
+    return bad
+
+
+def nested_stage(ctx):
+    """the sub-object case on real code: Map<K, List<T>>::insert(key, *map.find(key)) and friends"""
+    exe = C.build_harness(ctx, "life_nested_" + ctx.prop, ["life_nested.cpp", C.REPO / "src/Memory.cpp"])
+    if exe is None:
+        return
+    try:
+        hs = nested_histories(ctx.rng, ctx.tier == "quick")
+        ctx.cov.setdefault("streams", {})["nested"] = len(hs)
+        ctx.cov["nested_op_lines"] = sum(len(h) for h in hs)
+        bad = nested_run(exe, hs)
+        ctx.log(f"nested Map/HashMap<K, List<T>>: {len(hs)} histories, {len(bad)} disagreement(s) with the reference")
+        for h, j, il, rl, err in bad[:2]:
+            def fails(hh):
+                return bool(nested_run(exe, [hh if hh and hh[-1] == "destroyall" else hh + ["destroyall"]]))
+            small = C.ddmin(h[:j + 1], fails) if len(h) <= 40 else h[:j + 1]
+            text = "# impl-vs-reference on stream 'life-nested' (real Map/HashMap<K, List<T>>, harness/life_nested.cpp)\n" + "\n".join(small) + \
+                   f"\n# first disagreement at op {j + 1} of the unshrunk history\n# impl : {il}\n# ref  : {rl}\n" + "".join("# " + z + "\n" for z in err.splitlines()[:12])
+            ctx.violation("nested: impl-vs-reference", text)
+    finally:
+        try:
+            exe.unlink()
+        except OSError:
+            pass
+
+
 def long_history(rng, length, kinds):
     """C05: long-lived elements - a growth phase, then a long steady phase of mixed insertions / removals, a drain, regrowth"""
     h = gen_history(rng, length // 4, kinds, keys=12, alias=0.1, grow=0.9)[:-1]
@@ -948,6 +1092,7 @@ def check(ctx):
         ctx.log(f"{len(hs)} histories, {ctx.cov['evaluations']} op lines, {len(diffs)} disagreement(s)")
         C.report_diffs(ctx, diffs, harness, C.driver_path(DRIVER), ref, C.default_eq, "life-" + ctx.prop,
                        harness_args=args, driver_args=args)
+        nested_stage(ctx)
     finally:
         try:
             harness.unlink()
@@ -957,6 +1102,14 @@ def check(ctx):
 
 def replay(ctx, path):
     h = C.parse_replay(path)
+    if h and h[0][:2] in ("N.", "G."):
+        exe = C.build_harness(ctx, "life_nested_" + ctx.prop, ["life_nested.cpp", C.REPO / "src/Memory.cpp"])
+        for hh, j, il, rl, err in nested_run(exe, [h if h[-1] == "destroyall" else h + ["destroyall"]]):
+            txt = "\n".join(hh) + f"\n# first disagreement at op {j + 1}\n# impl : {il}\n# ref  : {rl}\n"
+            print(txt)
+            ctx.violation("replay: nested impl-vs-reference", txt)
+        exe.unlink()
+        return
     harness = C.build_harness(ctx, "life_" + ctx.prop, sources(), extra_flags=["-Wno-invalid-offsetof"])
     translate()
     C.lake_build([DRIVER])
